@@ -42,6 +42,9 @@ class Run:
         self.events = flatten(prog, F, [F.body], also=also, exclude=tuple(keep) + tuple(stop_at))   # keep: never inlined, stay call events
         self.stopped = False
         self.retvals = {}
+        self.exits = []               # return / goto nodes of F itself that were executed
+        self.maybe_returned = set()   # functions that may have returned from inside a loop that was not entered
+        self.forks = []               # rendered conditions that could not be decided and were followed both ways
 
     # ---- values
     def lookup(self, text):
@@ -69,7 +72,12 @@ class Run:
             if b is not None:
                 return self.ev(b[0], b[1])
             t = self.canon(x, env)
-            return self.lookup(t)
+            v = self.lookup(t)
+            if k == "DeclRefExpr" and isinstance(v, Sym) and (x.ty or "").replace("const ", "").strip() in ("int", "unsigned int", "long", "size_t", "uint32_t", "int32_t"):
+                import re as _re
+                if not _re.match(r"^[A-Za-z_]\w*$", str(v)):
+                    return Sym(t)          # an integer variable holding an unknown value: the variable is its name (a = t->list[id]->a)
+            return v
         if k == "UnaryOperator":
             op = x.d["op"]
             if op == "&":
@@ -109,6 +117,11 @@ class Run:
                     if a is None and b is None:
                         r = True
                     elif isinstance(a, Sym) or isinstance(b, Sym):
+                        # an object handed in through a parameter is there; anything else symbolic (a field, the result of a
+                        # helper or a loop) may or may not be NULL
+                        sv = str(a if isinstance(a, Sym) else b)
+                        if sv not in {p_["name"] for p_ in self.F.params} and not sv.startswith("&"):
+                            return Sym(render(x, env))
                         r = False
                     elif num(a) or num(b):
                         r = (a or b) == 0
@@ -154,8 +167,23 @@ class Run:
         return bool(v)
 
     def canon(self, x, env):
-        """text of an lvalue with index / base variables replaced by their current integer values where known"""
-        return render(x, env)
+        """text of an lvalue; a subscript that is a local whose current value is known (an integer, or a plain symbol such as the
+        node id `a`) is written with that value: msa->sequences[first] with first == a is msa->sequences[a]"""
+        t = render(x, env)
+        if "[" in t:
+            import re as _re
+
+            def sub(m_):
+                k_ = m_.group(1)
+                if k_ in self.store:
+                    v = self.store[k_]
+                    if isinstance(v, Sym):
+                        return "[%s]" % v if _re.match(r"^[A-Za-z_]\w*$", str(v)) else m_.group(0)
+                    if isinstance(v, int):
+                        return "[%d]" % v
+                return m_.group(0)
+            t = _re.sub(r"\[([A-Za-z_][\w:]*)\]", sub, t)
+        return t
 
     # ---- events
     def run(self):
@@ -234,6 +262,7 @@ class Run:
                         if exits_then:
                             t = False
                     elif self.fork:
+                        self.forks.append(render(e[1], e[2]))
                         ended = self._both([e[3], e[4]])
                         t = "forked"
                     else:
@@ -243,6 +272,7 @@ class Run:
             elif k == "switch":
                 v = self.ev(e[1], e[2])
                 if (not isinstance(v, int) or isinstance(v, Sym)) and self.fork:
+                    self.forks.append("switch(%s)" % render(e[1], e[2]))
                     ended = self._both([b for _, b in e[3]] + [[]])
                     if ended is not None:
                         if any(x[0] == "leave" and x[1] == ended for x in events[i + 1:]):
@@ -267,15 +297,24 @@ class Run:
                 if "loop" in self.stop_at:
                     self.stopped = True
                     return None
-                # loops are not entered: whatever they assign becomes unknown
+                # loops are not entered: whatever they assign becomes unknown, and a return inside the loop makes the value the
+                # function finally returns unknown as well (it may have returned from inside the loop)
                 from .inline import walk_events
                 for x in walk_events(e[3]):
                     if x[0] == "store":
                         self.store[x[1]] = Sym("<loop:%s>" % x[1])
+                    elif x[0] == "return" and getattr(x[1], "fn", None) is not None:
+                        if not self.fork and x[1].fn is not self.F:
+                            raise Undecided("%s may return from inside a loop" % x[1].fn.name)
+                        self.maybe_returned.add(x[1].fn.name)
             elif k == "return":
                 ended = e[1].fn.name if getattr(e[1], "fn", None) is not None else "?"
                 if e[1].k == "ReturnStmt" and e[1].kids:
                     self.retvals[ended] = self.ev(e[1].kids[0], e[2])
+                    if ended in self.maybe_returned:
+                        self.retvals[ended] = Sym("<value returned by %s>" % ended)
+                if getattr(e[1], "fn", None) is self.F:
+                    self.exits.append(e[1])
             if ended is not None:
                 if any(x[0] == "leave" and x[1] == ended for x in events[i + 1:]):
                     skip_to = ended
